@@ -475,6 +475,8 @@ func (f *Frame) loopWrites(li *LoopInfo) map[string]bool {
 					e.heapSort[n+"_p"] = psort
 					w[n+"_v"] = true
 					w[n+"_p"] = true
+					e.heapSort[n+"_n"] = "(Array Int Int)"
+					w[n+"_n"] = true
 				}
 			case ssa.CallInstruction:
 				e.P.callWrites(e, x.Common(), w, map[*ssa.Function]bool{})
@@ -483,6 +485,8 @@ func (f *Frame) loopWrites(li *LoopInfo) map[string]bool {
 						n, _, psort := f.mapHeap(mt)
 						e.heapSort[n+"_p"] = psort
 						w[n+"_p"] = true
+						e.heapSort[n+"_n"] = "(Array Int Int)"
+						w[n+"_n"] = true
 					}
 				}
 			}
